@@ -146,6 +146,13 @@ var clusters = []cluster{
 		sv("2012-02-03 09:18:15", "2012/02/03 09:18:15", "2012-02-03T09:18:15Z", "2012-02-03T18:18:15+09:00", "2012-02-03T09:18:15", " 2012-02-03 09:18:15.0"))},
 	{"date", "dt", cat([]val.Val{val.Time(t2)},
 		sv("2012-02-03", "2012/02/03", "2012-02-03 00:00:00", "2012-02-03T00:00:00Z", "2012-02-03 "))},
+	// instants that share the wall-clock reading, the second or the microsecond with t1 but are different instants
+	{"dt_other_zone", "dt", cat([]val.Val{val.Time(t1.Add(-9 * time.Hour))},
+		sv("2012-02-03T09:18:15+09:00", "2012-02-03T00:18:15Z", "2012-02-03 00:18:15", "2012-02-03 09:18:15 +09:00"))},
+	{"dt_half", "dt", cat([]val.Val{val.Time(t1.Add(500 * time.Millisecond))},
+		sv("2012-02-03 09:18:15.5", "2012-02-03T09:18:15.500Z", "2012/02/03 09:18:15.50", " 2012-02-03T09:18:15.5"))},
+	{"dt_nano", "dt", cat([]val.Val{val.Time(t1.Add(time.Nanosecond))},
+		sv("2012-02-03 09:18:15.000000001", "2012-02-03T09:18:15.000000001Z"))},
 	{"a", "text", sv("a", "A", " a", "a ", "\ta")},
 	{"abc", "text", sv("abc", "ABC", "Abc ", " aBC")},
 	{"eacute", "text", sv("é", "É", " é")},
@@ -235,6 +242,10 @@ func genKeyPools(t *rapid.T, nKeys int) [][]int {
 				from = nullIdx
 			}
 			pools[k] = append(pools[k], fw.PickU(t, "cluster", from))
+			if len(from) > 0 && clusters[from[0]].class == "dt" && fw.Pct(t, "dtSibling", 60) {
+				// a second instant next to the first: same day, same wall clock in another zone, same second, same microsecond
+				pools[k] = append(pools[k], fw.PickU(t, "siblingCluster", dtIdx))
+			}
 		}
 	}
 	return pools
@@ -669,8 +680,11 @@ type tblOpt struct {
 
 func genTbl(t *rapid.T, opt tblOpt) tblCase {
 	c := tblCase{Kind: fw.PickU(t, "kind", opt.kinds), CPU: 1, Src: "temp"}
-	if fw.Pct(t, "csv", 45) {
+	switch fw.Weighted(t, "src", []int{47, 40, 13}) {
+	case 1:
 		c.Src = "csv"
+	case 2:
+		c.Src = "json"
 	}
 	csv := c.Src == "csv"
 	c.Strict = fw.Pct(t, "strict", 35)
@@ -729,6 +743,10 @@ func genTbl(t *rapid.T, opt tblOpt) tblCase {
 		if fw.Pct(t, "cpu2", 15) {
 			c.CPU = 2
 		}
+	}
+	if n == 0 && c.Src == "json" {
+		// a JSON array without objects has no columns at all
+		c.Src = "temp"
 	}
 	pools := genKeyPools(t, c.NKeys)
 	if large {
@@ -793,7 +811,22 @@ func genTbl(t *rapid.T, opt tblOpt) tblCase {
 		}
 		row = append(row, keyRows[i]...)
 		row = append(row, genX(t, nullPct, alpha, csv), genS(t, nullPct))
+		if c.Src == "json" {
+			for j := range row {
+				row[j] = jsonForm(row[j])
+			}
+		}
 		c.Rows = append(c.Rows, row)
+	}
+	if c.Src == "json" {
+		for _, r := range c.Rows {
+			for _, v := range r {
+				if jsonUnloadable(v) {
+					// the same typed cells as a temporary table
+					c.Src = "temp"
+				}
+			}
+		}
 	}
 	wherePct := 15
 	if opt.emptyBias {
@@ -865,6 +898,71 @@ func (c tblCase) keyCols() []string {
 		cols = append(cols, c.keySQL(k))
 	}
 	return cols
+}
+
+// jsonForm: what a JSON table can hold: integers, floats, booleans, null and
+// strings (a datetime is its RFC 3339 text).
+func jsonForm(v val.Val) val.Val {
+	switch v.K {
+	case "D":
+		return val.Str(v.S)
+	case "I":
+		// csvq loads every JSON number as a float
+		return val.Float(float64(v.AsInt()))
+	}
+	return v
+}
+
+// jsonUnloadable: a string ending in a backslash cannot be loaded from a JSON
+// file (known finding of C02, json_trailing_backslash_unloadable: the scanner of
+// the go-text dependency misreads the escaped backslash before the closing quote).
+func jsonUnloadable(v val.Val) bool {
+	return v.K == "S" && strings.HasSuffix(v.S, `\`)
+}
+
+// jsonText: the table as a JSON array of objects; integers without, floats
+// with a fraction or exponent (csvq loads the former as integer, the latter as float).
+func jsonText(cols []string, rows [][]val.Val) string {
+	var b strings.Builder
+	b.WriteString("[")
+	for i, r := range rows {
+		if i > 0 {
+			b.WriteString(",")
+		}
+		b.WriteString("\n{")
+		for j, v := range r {
+			if j > 0 {
+				b.WriteString(",")
+			}
+			name, _ := json.Marshal(cols[j])
+			b.Write(name)
+			b.WriteString(":")
+			switch v.K {
+			case "N":
+				b.WriteString("null")
+			case "I":
+				b.WriteString(v.S)
+			case "B":
+				b.WriteString(strconv.FormatBool(v.AsBool()))
+			case "F":
+				f := v.AsFloat()
+				t := strconv.FormatFloat(f, 'f', -1, 64)
+				if !strings.Contains(t, ".") {
+					t += ".0"
+				}
+				b.WriteString(t)
+			default:
+				var sb bytes.Buffer
+				enc := json.NewEncoder(&sb)
+				enc.SetEscapeHTML(false)
+				_ = enc.Encode(v.S)
+				b.WriteString(strings.TrimRight(sb.String(), "\n"))
+			}
+		}
+		b.WriteString("}")
+	}
+	b.WriteString("\n]\n")
+	return b.String()
 }
 
 func csvCell(v val.Val) string {
@@ -1159,6 +1257,14 @@ func jsonMatches(arr []interface{}, vs []val.Val) bool {
 		case "I":
 			n, ok := arr[i].(json.Number)
 			if !ok || n.String() != v.S {
+				return false
+			}
+		case "F":
+			n, ok := arr[i].(json.Number)
+			if !ok {
+				return false
+			}
+			if f, err := n.Float64(); err != nil || f != v.AsFloat() {
 				return false
 			}
 		default:
@@ -1556,14 +1662,18 @@ func checkTbl(c tblCase) (fw.Outcome, *fw.Violation) {
 	}
 
 	dir := fw.WorkDir()
-	if c.Src == "csv" {
+	if c.Src == "csv" || c.Src == "json" {
 		d, err := os.MkdirTemp(fw.WorkDir(), "c04-")
 		if err != nil {
 			return o, fw.Harness("mkdir: %v", err)
 		}
 		defer os.RemoveAll(d)
 		dir = d
-		if err := run.WriteFiles(dir, map[string]string{"t.csv": csvText(c.colNames(), c.Rows)}); err != nil {
+		files := map[string]string{"t.csv": csvText(c.colNames(), c.Rows)}
+		if c.Src == "json" {
+			files = map[string]string{"t.json": jsonText(c.colNames(), c.Rows)}
+		}
+		if err := run.WriteFiles(dir, files); err != nil {
 			return o, fw.Harness("write: %v", err)
 		}
 	}
@@ -2228,17 +2338,17 @@ var aggAssumptions = []string{
 
 func TestC04Group(t *testing.T) {
 	fw.Run(t, fw.Spec[tblCase]{
-		ID: "C04", Name: "group", Quick: 5000, Thorough: 100000,
+		ID: "C04", Name: "group", Quick: 4500, Thorough: 100000,
 		Gen:         func(t *rapid.T) tblCase { return genTbl(t, tblOpt{kinds: []string{"group"}, exprPct: 25}) },
 		Check:       checkTbl,
-		Rule:        "table (temp typed / CSV text) with unique id, 0-3 key columns drawn from clusters of spellings equal across types plus ':' and marker texts (in 25% the GROUP BY list mixes plain columns, column numbers and expression keys evaluated per row through a plain SELECT; classes expr_keys:<n>_of_<m>, column_number_key), x numeric-ish, s text; SELECT LISTAGG(id), 22 aggregates, key columns GROUP BY keys [WHERE] and a second query with HAVING; csvq's buckets vs E_strict/E_loose, every aggregate recomputed over csvq's bucket; CPU 4 with 160-230 rows in 10%; non-trivial = >=2 keys with a ':'/marker cell, or two rows equal across spellings, or an empty group; distinct by (kind, #keys, traits, cell classes, strict)",
+		Rule:        "table (temp typed / CSV text / 13% JSON file: floats, booleans, null, strings; strings ending in a backslash are not put into JSON files, C02 json_trailing_backslash_unloadable) with unique id, 0-3 key columns drawn from clusters of spellings equal across types plus ':' and marker texts (in 25% the GROUP BY list mixes plain columns, column numbers and expression keys evaluated per row through a plain SELECT; classes expr_keys:<n>_of_<m>, column_number_key), (datetime clusters include instants that share the wall-clock reading in another zone, the second (.5 s) or the microsecond (1 ns) with another cluster; a drawn datetime cluster brings a second one along in 60%), x numeric-ish, s text; SELECT LISTAGG(id), 22 aggregates, key columns GROUP BY keys [WHERE] and a second query with HAVING; csvq's buckets vs E_strict/E_loose, every aggregate recomputed over csvq's bucket; CPU 4 with 160-230 rows in 10%; non-trivial = >=2 keys with a ':'/marker cell, or two rows equal across spellings, or an empty group; distinct by (kind, #keys, traits, cell classes, strict)",
 		Assumptions: aggAssumptions,
 	})
 }
 
 func TestC04Distinct(t *testing.T) {
 	fw.Run(t, fw.Spec[tblCase]{
-		ID: "C04", Name: "distinct", Quick: 5000, Thorough: 100000,
+		ID: "C04", Name: "distinct", Quick: 4500, Thorough: 100000,
 		Gen:         func(t *rapid.T) tblCase { return genTbl(t, tblOpt{kinds: []string{"distinct"}, exprPct: 20}) },
 		Check:       checkTbl,
 		Rule:        "same tables; SELECT DISTINCT keys [WHERE]: every result row is an input row, no two result rows E_strict-equal, every input row has an E_loose-equal result row; non-trivial and distinct as in group",
@@ -2600,7 +2710,7 @@ var setAssumptions = []string{
 
 func TestC04SetOp(t *testing.T) {
 	fw.Run(t, fw.Spec[setCase]{
-		ID: "C04", Name: "setop", Quick: 7000, Thorough: 140000,
+		ID: "C04", Name: "setop", Quick: 6000, Thorough: 140000,
 		Gen:         func(t *rapid.T) setCase { return genSet(t, false) },
 		Check:       checkSet,
 		Rule:        "two tables (temp typed / CSV text) of 1-3 key columns from the same clusters; a UNION|EXCEPT|INTERSECT [ALL] b: UNION ALL is the multiset sum; UNION survivors as in distinct; EXCEPT/INTERSECT: left rows with an E_strict match on the right must be dropped/kept, rows without an E_loose match kept/dropped, ALL keeps every copy, without ALL no two result rows E_strict-equal; non-trivial as in group (empty = an empty side or empty result)",
@@ -3201,7 +3311,7 @@ func checkOrd(c ordCase) (fw.Outcome, *fw.Violation) {
 
 func TestC04DistinctOrder(t *testing.T) {
 	fw.Run(t, fw.Spec[ordCase]{
-		ID: "C04", Name: "distinct_order", Quick: 4000, Thorough: 80000,
+		ID: "C04", Name: "distinct_order", Quick: 3500, Thorough: 80000,
 		Gen: genOrd, Check: checkOrd,
 		Rule: "table (two column layouts, temp/CSV) with 1-3 key columns from clusters reduced to certainly-equal spellings; SELECT DISTINCT keys (permuted), agg(x) OVER (PARTITION BY subset) AS a, LISTAGG(id) OVER (same) AS ids FROM t [WHERE] ORDER BY COUNT(*)|COUNT(k)|SUM(a)|COUNT(a) OVER (PARTITION BY subset) [DESC] [, keys]: the partitions read from ids vs E_strict/E_loose, a recomputed over them, DISTINCT survivors, and the row order must be sorted by the ORDER BY function computed with the reference partition over the rows after DISTINCT (or, second admissible reading, before it); non-trivial = DISTINCT removed a row and the group rule holds",
 		Assumptions: []string{tblAssumption,
